@@ -83,16 +83,29 @@ def build_model_driver():
         return exe
 
 
+REPO = os.environ.get("VERIF_REPO", "/repo")
+
+
 def build_harness():
-    """rebuild the Rust harness against the current /repo working tree (cargo decides what is stale)"""
+    """rebuild the Rust harness against the current working tree of /repo (cargo decides what is
+       stale).  VERIF_REPO=<dir> (mutation self-tests only) builds a copy of the harness against a
+       scratch copy of the repository instead, in its own target directory."""
     with Lock("cargo"):
-        lock = os.path.join(HARNESS, "Cargo.lock")
+        hdir = HARNESS
+        if REPO != "/repo":
+            tag = hashlib.sha256(REPO.encode()).hexdigest()[:10]
+            hdir = os.path.join(WORK, "harness_" + tag)
+            os.makedirs(hdir, exist_ok=True)
+            sh("rsync -a --delete --exclude target %s/ %s/" % (HARNESS, hdir))
+            toml = open(os.path.join(hdir, "Cargo.toml")).read().replace('"/repo/', '"%s/' % REPO.rstrip("/"))
+            open(os.path.join(hdir, "Cargo.toml"), "w").write(toml)
+        lock = os.path.join(hdir, "Cargo.lock")
         if not os.path.exists(lock):
-            sh(["cp", "/repo/Cargo.lock", lock])
-        out = sh("cargo build --offline 2>&1", cwd=HARNESS, timeout=3600, check=False)
-        exe = os.path.join(HARNESS, "target", "debug", "cedar-verif-harness")
-        if "error" in out and "Finished" not in out:
-            raise InfraError("harness does not build against /repo:\n" + out[-6000:])
+            sh(["cp", os.path.join(REPO, "Cargo.lock"), lock])
+        out = sh("cargo build --offline 2>&1", cwd=hdir, timeout=3600, check=False)
+        exe = os.path.join(hdir, "target", "debug", "cedar-verif-harness")
+        if "Finished" not in out:
+            raise InfraError("harness does not build against %s:\n%s" % (REPO, out[-6000:]))
         if not os.path.exists(exe):
             raise InfraError("harness binary missing:\n" + out[-3000:])
         return exe
@@ -233,15 +246,14 @@ def check_props(prop_file, theorems):
     """(re)compile props/<prop_file>.v, parse its Print Assumptions transcript.
        returns (obligations, discharged, details, failures)"""
     failures = []
-    try:
-        build_coq()
-    except InfraError as e:
-        return len(theorems), 0, {}, ["Coq development does not build: " + str(e)[-1500:]]
     vo = os.path.join(COQ, "props", prop_file + ".vo")
     with Lock("coq"):
         if os.path.exists(vo):
             os.remove(vo)
-        out = sh("timeout 1200 make props/%s.vo" % prop_file, cwd=COQ, timeout=1300, check=False)
+        if not os.path.exists(os.path.join(COQ, "Makefile")) or \
+                os.path.getmtime(os.path.join(COQ, "Makefile")) < os.path.getmtime(os.path.join(COQ, "_CoqProject")):
+            sh("coq_makefile -f _CoqProject -o Makefile", cwd=COQ)
+        out = sh("timeout 2400 make -j%d props/%s.vo" % (NPROC, prop_file), cwd=COQ, timeout=2500, check=False)
     if not os.path.exists(vo):
         return len(theorems), 0, {}, ["props/%s.v does not compile: %s" % (prop_file, out[-1500:])]
     # transcript: after each `Print Assumptions thm.` Coq prints either
